@@ -515,18 +515,41 @@ private theorem connectBody_spec {host : Bytes} {port : Nat} {cred : Option (Byt
     simp only [Replies.empty, CtlL.append_list, List.nil_append, List.map_cons, List.cons_append]
     rw [connectLinesTls_1 _ _ _ _ h120]
 
+/-- abandoning a connection that is still open writes nothing and receives nothing -/
+private theorem connectDropT_ok {w w1 : WorldT} {u : Unit} (h : L.connectDropT w = (.ok u, w1)) :
+    ExtT w w1 [] [] ∧ w1.tlsCtx = w.tlsCtx ∧ w1.base.ttype = w.base.ttype := by
+  unfold L.connectDropT at h
+  simp only [bindT_ok, getT_ok] at h
+  obtain ⟨_, _, ⟨rfl, rfl⟩, h⟩ := h
+  split at h
+  · simp only [bindT_ok, emitT, modifyT_ok] at h
+    obtain ⟨_, _, rfl, rfl⟩ := h
+    exact ⟨⟨[.ev _ .ctlClose], rfl, rfl, rfl⟩, rfl, rfl⟩
+  · obtain ⟨_, rfl⟩ := pureT_ok.mp h
+    exact ⟨ExtT.refl _, rfl, rfl⟩
+
+private theorem connectRest_spec {host : Bytes} {port : Nat} {cred : Option (Bytes × Bytes)} {w w' : WorldT}
+    {rs : Replies} (s : Spec.Settings) (hs : s.asciiType = (w.base.ttype == .ascii)) (htls : w.tlsCtx = true)
+    (h : (L.connectDropT >>= fun _ => L.connectBody host port cred) w = (.ok rs, w')) :
+    ∃ ws, ExtT w w' ws rs.list ∧ ws.map lineOf = Spec.connectLinesTls s cred (rs.list.map (·.code)) true := by
+  simp only [bindT_ok] at h
+  obtain ⟨_, w1, h1, h⟩ := h
+  obtain ⟨x1, t1, y1⟩ := connectDropT_ok h1
+  obtain ⟨ws, x, hw⟩ := connectBody_spec s (by rw [hs, y1]) (t1.trans htls) h
+  exact ⟨ws, by simpa using x1.trans x, hw⟩
+
 private theorem connectT_spec {host : Bytes} {port : Nat} {cred : Option (Bytes × Bytes)} {w w' : WorldT}
     {rs : Replies} (s : Spec.Settings) (hs : s.asciiType = (w.base.ttype == .ascii)) (htls : w.tlsCtx = true)
     (h : connectT host port cred w = (.ok rs, w')) :
     ∃ ws, ExtT w w' ws rs.list ∧ ws.map lineOf = Spec.connectLinesTls s cred (rs.list.map (·.code)) true := by
   rw [L.connectT_eq] at h
   rcases cred with _ | ⟨u, p⟩
-  · exact connectBody_spec s hs htls h
+  · exact connectRest_spec s hs htls h
   · simp only [bindT_ok] at h
     obtain ⟨_, wa, ha, _, wb, hb, h⟩ := h
     obtain ⟨_, e⟩ := liftMkCmd_ok ha; subst wa
     obtain ⟨_, e⟩ := liftMkCmd_ok hb; subst wb
-    exact connectBody_spec s hs htls h
+    exact connectRest_spec s hs htls (bindT_ok.mpr h)
 
 
 /-- login with a TLS context, in a session that is not broken: for every call that returns, whatever the server answers,
